@@ -152,6 +152,82 @@ theorem edges_perm {G : NxG} (hW : G.WF) (hO : G.Oriented) (hN : G.tedges.Nodup)
 theorem length_edges {G : NxG} (hW : G.WF) (hO : G.Oriented) (hN : G.tedges.Nodup) :
     G.edges.length = G.tedges.length := (edges_perm hW hO hN).length_eq
 
+/-- the number of edges `G.edges()` reports depends only on the unordered edge relation -/
+theorem edges_perm_congr {G H : NxG} (hn : G.n = H.n) (hE : ∀ u v, G.E u v ↔ H.E u v) : G.edges.Perm H.edges := by
+  rw [List.perm_ext_iff_of_nodup (nodup_edges G) (nodup_edges H)]
+  intro e
+  rw [mem_edges', mem_edges', hn, hE]
+
+theorem edges_length_congr {G H : NxG} (hn : G.n = H.n) (hE : ∀ u v, G.E u v ↔ H.E u v) :
+    G.edges.length = H.edges.length := (edges_perm_congr hn hE).length_eq
+
+/-- `(min, max)` of a pair -/
+def norm (e : Nat × Nat) : Nat × Nat := (min e.1 e.2, max e.1 e.2)
+
+theorem mem_map_norm {l : List (Nat × Nat)} {u v : Nat} (huv : u ≤ v) :
+    (u, v) ∈ l.map norm ↔ (u, v) ∈ l ∨ (v, u) ∈ l := by
+  simp only [List.mem_map, norm, Prod.mk.injEq]
+  constructor
+  · rintro ⟨⟨a, b⟩, he, h1, h2⟩
+    simp only at h1 h2
+    rcases Nat.le_total a b with hab | hab
+    · rw [Nat.min_eq_left hab] at h1; rw [Nat.max_eq_right hab] at h2
+      subst h1 h2; exact Or.inl he
+    · rw [Nat.min_eq_right hab] at h1; rw [Nat.max_eq_left hab] at h2
+      subst h1 h2; exact Or.inr he
+  · rintro (h | h)
+    · exact ⟨(u, v), h, Nat.min_eq_left huv, Nat.max_eq_right huv⟩
+    · exact ⟨(v, u), h, Nat.min_eq_right huv, Nat.max_eq_left huv⟩
+
+/-- the same graph with every call made as `(smaller, larger)` -/
+def normalized (G : NxG) : NxG := ⟨G.n, G.tedges.map norm⟩
+
+/-- distinct unordered loop-free `add_edge` calls: `G.edges()` reports as many edges as calls were made -/
+theorem length_edges_of_norm {G : NxG} (hW : G.WF) (hL : G.Loopless) (hN : (G.tedges.map norm).Nodup) :
+    G.edges.length = G.tedges.length := by
+  have hE : ∀ u v, G.E u v ↔ (normalized G).E u v := by
+    intro u v
+    show (_ ∨ _) ↔ ((u, v) ∈ G.tedges.map norm ∨ (v, u) ∈ G.tedges.map norm)
+    rcases Nat.lt_trichotomy u v with h | h | h
+    · rw [mem_map_norm (Nat.le_of_lt h)]
+      constructor
+      · intro hx; exact Or.inl hx
+      · rintro (hx | hx)
+        · exact hx
+        · simp only [List.mem_map, norm, Prod.mk.injEq] at hx
+          obtain ⟨e, _, h1, h2⟩ := hx; omega
+    · subst h
+      constructor
+      · intro hx; exact absurd rfl (hL.of_E hx)
+      · rintro (hx | hx) <;>
+        · simp only [List.mem_map, norm, Prod.mk.injEq] at hx
+          obtain ⟨e, he, h1, h2⟩ := hx
+          have := hL e he; omega
+    · rw [mem_map_norm (Nat.le_of_lt h)]
+      constructor
+      · intro hx; exact Or.inr (Or.comm.1 hx)
+      · rintro (hx | hx)
+        · simp only [List.mem_map, norm, Prod.mk.injEq] at hx
+          obtain ⟨e, _, h1, h2⟩ := hx; omega
+        · exact Or.comm.1 hx
+  have hHW : (normalized G).WF := by
+    intro e he
+    simp only [normalized, List.mem_map, norm] at he
+    obtain ⟨f, hf, rfl⟩ := he
+    have := hW f hf
+    show min f.1 f.2 < G.n ∧ max f.1 f.2 < G.n
+    omega
+  have hHO : (normalized G).Oriented := by
+    intro e he
+    simp only [normalized, List.mem_map, norm] at he
+    obtain ⟨f, hf, rfl⟩ := he
+    have := hL f hf
+    show min f.1 f.2 < max f.1 f.2
+    omega
+  have h1 := edges_length_congr (G := G) (H := normalized G) rfl hE
+  rw [h1, length_edges hHW hHO hN]
+  simp [normalized]
+
 theorem length_edges_relabelCopy {G : NxG} (hW : G.WF) (hL : G.Loopless) :
     G.relabelCopy.edges.length = G.edges.length :=
   length_edges (relabelCopy_WF hW) (relabelCopy_oriented hL) (relabelCopy_nodup G)
@@ -328,5 +404,46 @@ theorem fromNetworkx_loop {G : NxG} (hW : G.WF) {u : Nat} (hu : (u, u) ∈ G.ted
       rcases List.mem_cons.1 hmem with h | h
       · exfalso; unfold SimpleG.Valid at hv; rw [← h] at hv; simp at hv
       · exact ih _ h
+
+/-! ### degrees -/
+
+/-- the neighbours of node `r` -/
+def NxG.nbrList (G : NxG) (r : Nat) : List Nat := (List.range G.n).filter (fun s => decide (G.E r s))
+
+/-- the degree of node `r` -/
+def NxG.deg (G : NxG) (r : Nat) : Nat := (G.nbrList r).length
+
+theorem NxG.mem_nbrList {G : NxG} {r s : Nat} : s ∈ G.nbrList r ↔ s < G.n ∧ G.E r s := by
+  simp [NxG.nbrList]
+
+theorem NxG.nodup_nbrList (G : NxG) (r : Nat) : (G.nbrList r).Nodup := List.nodup_range.filter _
+
+theorem NxG.deg_congr {G H : NxG} (hn : G.n = H.n) (hE : ∀ u v, G.E u v ↔ H.E u v) (r : Nat) : G.deg r = H.deg r := by
+  unfold NxG.deg NxG.nbrList
+  rw [hn]
+  congr 1
+  apply List.filter_congr
+  intro s _
+  simp [hE]
+
+/-- the neighbour row of vertex `r + 1` of the cnfgen object has as many entries as node `r` has
+neighbours in the networkx graph -/
+theorem fromNetworkx_degree {G : NxG} (hW : G.WF) {S : SimpleG} (hI : SimpleG.Inv S)
+    (hmem : ∀ u v, (u, v) ∈ S.edgeset ↔ 1 ≤ u ∧ 1 ≤ v ∧ G.E (u - 1) (v - 1)) (r : Nat) :
+    (S.nbrs (r + 1)).length = G.deg r := by
+  unfold NxG.deg
+  rw [← List.length_map (f := fun s => s + 1) (as := G.nbrList r)]
+  apply List.Perm.length_eq
+  rw [List.perm_ext_iff_of_nodup (hI.nbrs_nodup _)]
+  · intro w
+    rw [hI.mem_nbrs, hmem]
+    simp only [List.mem_map, NxG.mem_nbrList, Nat.add_sub_cancel]
+    constructor
+    · rintro ⟨_, hw, hE⟩
+      exact ⟨w - 1, ⟨(hW.of_E hE).2, hE⟩, by omega⟩
+    · rintro ⟨s, ⟨_, hE⟩, rfl⟩
+      exact ⟨by omega, by omega, by simpa using hE⟩
+  · apply (NxG.nodup_nbrList _ _).map
+    intro a b h; simp only at h; omega
 
 end Cnfgen.Nx
